@@ -52,7 +52,7 @@ ASSUMPTIONS = [
     "additionally LINE events inside writing/index/filestore/filelock in a quarter (thorough: a third) of the schedules",
     "threaded runs decide timeouts in VIRTUAL time (scheduler steps x tick; try_for's time.time/time.sleep are "
     "replaced from the harness), so 'LockError only after the timeout' and 'at most ceil(timeout/delay)+1 tries' are "
-    "exact there; process runs use time.monotonic() (system-wide on Linux) and only check the lower bound with 5 ms "
+    "exact there; process runs use time.monotonic() (system-wide on Linux) and only check the lower bound with 10 ms "
     "slack - never an upper bound in wall-clock time",
     "process-level races are free-running with injected delays, not controlled; mutual exclusion between processes is "
     "judged on client-side certain intervals [return(writer()), call(commit/cancel)] only",
@@ -70,12 +70,17 @@ ASSUMPTIONS = [
 SHARDS = {"quick": 4, "thorough": 16}
 BUDGET_S = {"quick": 60, "thorough": 660}
 FLOORS = {
-    "quick": {"schedules": 60, "sched.steps": 100000, "interleavings.distinct": 50, "attempts.lockerror": 60,
-              "commits.successful": 150, "attempts.overlapping": 100, "lock.failed_tries.justified": 100,
-              "mutex.acquisitions_checked": 200, "reads.after_commit": 150, "finish.cancel": 10,
-              "finish.exception": 10, "timeout.lower_bound_checked": 60, "storage.ram.schedules": 15,
-              "storage.file.schedules": 15, "front.async.attempts": 10, "front.buffered.attempts": 10,
-              "proc.histories": 2, "proc.commits": 6, "progress.fresh_writer_ok": 60},
+    # quick floors = about 1/4 of the minimum over seeds 0..4 (4 shards x 60 s on a busy 16-core machine)
+    "quick": {"schedules": 240, "sched.steps": 600000, "interleavings.distinct": 240, "attempts.lockerror": 1000,
+              "commits.successful": 1700, "attempts.overlapping": 1600, "lock.failed_tries.justified": 17000,
+              "mutex.acquisitions_checked": 2000, "reads.after_commit": 1400, "reads.under_lock": 700,
+              "finish.cancel": 250, "finish.exception": 160, "timeout.lower_bound_checked": 1000,
+              "timeout.lockerror_after_positive_timeout": 400, "timeout.tries_bound_checked": 2400,
+              "attempts.nested": 270, "progress.release_checked": 1400, "storage.ram.schedules": 120,
+              "storage.file.schedules": 110, "front.async.attempts": 300, "front.async.deferred_commits": 60,
+              "front.buffered.attempts": 300, "front.buffered.commits": 400, "lines.schedules": 60,
+              "lines.yields": 150000, "proc.histories": 6, "proc.commits": 28, "proc.lockerrors": 35,
+              "proc.reads_under_lock": 40, "progress.fresh_writer_ok": 240},
     "thorough": {"schedules": 1500, "sched.steps": 3000000, "interleavings.distinct": 1200,
                  "attempts.lockerror": 1500, "commits.successful": 4000, "attempts.overlapping": 2500,
                  "lock.failed_tries.justified": 2500, "mutex.acquisitions_checked": 5000,
@@ -631,14 +636,20 @@ def run_thread_case(ctx, idx, rng, lines=False):
         else:
             ix = RamStorage().create_index(make_schema())
         model0 = {}
-        # (no prelude in most LINE-level schedules: the very first writer() calls of a fresh storage race)
-        for p in range(0 if (lines and rng.random() < 0.6) else rng.randint(0, 3)):
-            w = ix.writer(compound=compound)
-            for i in range(rng.randint(1, 3)):
-                key = "base%d.%d" % (p, i)
-                model0[key] = gen_text(rng)
-                w.add_document(id=key, t=model0[key])
-            w.commit(merge=False)
+
+        def run_prelude():
+            # (no prelude in most LINE-level schedules: the very first writer() calls of a fresh storage race)
+            for p in range(0 if (lines and rng.random() < 0.6) else rng.randint(0, 3)):
+                w = ix.writer(compound=compound)
+                for i in range(rng.randint(1, 3)):
+                    key = "base%d.%d" % (p, i)
+                    model0[key] = gen_text(rng)
+                    w.add_document(id=key, t=model0[key])
+                w.commit(merge=False)
+        okp, _ = ctx.guard("no-exception", wb, run_prelude)
+        if not okp:
+            ctx.case(("prelude-failed", storage), False)
+            return
         g0 = ix.latest_generation()
         s = S.Scheduler(sseed, max_steps=ctx.pick(150000, 400000), watchdog_s=90, stall_s=15, **pol)
         H = History(s, tap, g0, model0)
@@ -677,6 +688,8 @@ def run_thread_case(ctx, idx, rng, lines=False):
         ctx.count("sched.switches", out.switches)
         ctx.count("sched.status." + out.status)
         ctx.count("sched.threads", out.nthreads)
+        if out.leaked:
+            ctx.count("sched.leaked_threads", len(out.leaked))
         if ly is not None:
             ctx.count("lines.schedules")
             ctx.count("lines.events", ly.fired)
@@ -877,7 +890,7 @@ def run_proc_case(ctx, idx, rng):
 def check_proc_history(ctx, recs, g0, model0, d, wb):
     from whoosh import index
     out = []
-    SLACK = 0.005
+    SLACK = 0.010
     acq = [r for r in recs if r["op"] == "writer"]
     fin = dict(((r["proc"], r["attempt"]), r) for r in recs if r["op"] == "finish")
     held = []       # (proc, attempt, t_certain_start, t_certain_end, t_possible_start, t_possible_end)
